@@ -447,7 +447,7 @@ def check_wide(ctx: Ctx, m: MNTM, w: str, origin: str, max_total: int = 400000):
     except E.HarnessTimeout:
         end = "raise HarnessTimeout"
     got = E.verdict_of(end)
-    acc = E.bounded_call(lambda: m.accepts_input(w))
+    acc = E.bounded_call(lambda: m.accepts_input(w), 180.0)   # up to 10^5 configurations: seconds, more under load
     ctx.case(("W", repr(m), w))
     ctx.stat(origin)
     ctx.stat("wide_frontier_" + ("8192+" if widest > 8192 else "4096+" if widest > 4096 else "1024+" if widest > 1024
